@@ -546,9 +546,21 @@ func TestReplay(t *testing.T) {
 		Model   bool `json:"model"`
 		Factory bool `json:"factory"`
 		Slow    bool `json:"slow_persistent_read"`
+		AutoSv  bool `json:"json_autosave"`
 	}
 	if _, err := vkit.LoadReplay(path, &kind); err != nil {
 		t.Fatal(err)
+	}
+	if kind.AutoSv {
+		var ac AutoSaveCase
+		vkit.LoadReplay(path, &ac)
+		for i := 0; i < 20; i++ { // timing-dependent
+			if key, detail, _, _ := runAutoSave(ac); key != "" {
+				vkit.Violation(t, key, detail, ac)
+				return
+			}
+		}
+		return
 	}
 	if kind.Slow {
 		var sc SlowCase
